@@ -472,7 +472,10 @@ func (g *gen) program() string {
 		if strings.HasSuffix(pat, "|") {
 			pat += "c"
 		}
-		pat = g.pick("", "", "^", "") + pat + g.pick("", "", "$", "")
+		if g.chance(0.15) { // plain literals, also fully anchored ones
+			pat = g.pick("ab", "a", "abc", "b", "ba")
+		}
+		pat = g.pick("", "", "^", "", "^") + pat + g.pick("", "", "$", "", "$")
 		if g.chance(0.1) {
 			pat = strings.Replace(pat, "a", "\\/", 1)
 		}
